@@ -90,4 +90,11 @@ def run(ctx):
     from . import evaltables
     evaltables.rule_application(ctx, "C05-binding-frames", {"frame", "bind"})
     evaltables.rule_trampoline(ctx, "C05-binding-frames", {"frame"})
+    # ... and the parser must hand the evaluator every sub-form of what the derived forms expand into: thunk calls with internal
+    # definitions and several body forms (begin, (let () ...)), nested calls, conditionals
+    ctx.rule("C05-core-forms-kept", "the parser keeps every sub-form of the core forms the derived forms expand into (lambda / thunk call with "
+                                    "internal definitions and body forms, if, set!, define, nested calls): each marker identifier of twenty "
+                                    "texts occurs in the parsed statement as often as in the text (crate's own lexer and parser followed)")
+    from . import readtables as _rt05
+    _rt05.rule_core_forms(ctx, "C05-core-forms-kept")
     return EXPLANATION, NOT_DECIDED
